@@ -46,3 +46,19 @@ Theorem c20_compile_correct : forall t tl comps, forallb seg_ok (t_segs t) = tru
   run_ops (compile t) tl comps [] [] = match_segs (t_segs t) tl comps [].
 Proof. exact compile_correct. Qed.
 Print Assumptions c20_compile_correct.
+
+(* ---- the converse: the routing parser accepts ONLY strings of the template language ---- *)
+From GB Require Import Proofs.TemplateSoundProofs.
+
+(* whatever text the routing parser accepts has a derivation in the grammar (Rtemplate: "/" Segments [":" LITERAL], segments
+   "*" | "**" | non-empty LITERAL of path characters with well-formed escapes | "{" ident{"." ident} ["=" Segments] "}"),
+   and the structure, field paths and verb the parser returns are exactly those of that derivation: no empty segment, no
+   stray brace, no malformed escape, no NUL, no ill-formed field path is ever accepted *)
+Theorem c20_routing_parser_sound : forall s t, gw_parse false s = Some t -> Rtemplate t s.
+Proof. exact gw_parse_sound. Qed.
+Print Assumptions c20_routing_parser_sound.
+
+(* the tokenizer only cuts: its tokens concatenate to the input and none is empty *)
+Theorem c20_tokens_concat : forall s st cur, concat (scan st s cur) = rev cur ++ s.
+Proof. exact scan_concat. Qed.
+Print Assumptions c20_tokens_concat.
